@@ -92,7 +92,10 @@ def gen_arg(rnd, facade, method):
     if facade == "bytes":
         return (rnd.choice([b"", b"ab"]),)
     if facade == "uuid4":
-        return (rnd.choice(U4 + U_NOT4),)
+        import uuid as _uuid
+        # non-RFC-4122 variants have `.version is None` (nil / max UUID, NCS variant with a 4 in the version nibble)
+        odd = [_uuid.UUID(int=0), _uuid.UUID(int=2 ** 128 - 1), _uuid.UUID("00000000-0000-4000-0000-000000000000")]
+        return (rnd.choice(U4 + U_NOT4 + odd),)
     if facade == "datetime":
         return (rnd.choice(DTS + DS),)
     if facade == "date":
